@@ -2,7 +2,7 @@
    for what does NOT hold of the code as it is. *)
 From Coq Require Import String Ascii List Bool Arith ZArith.
 Import ListNotations.
-Require Import Generated PyBase PyStr Lex Symbols Merge ParseEq ParseModel GLex GNorm Graph GraphFacts GraphTheorems GraphEvalFacts.
+Require Import Generated PyBase PyStr Lex Symbols Merge ParseEq ParseModel GLex GNorm Graph GraphFacts GraphTheorems GraphEvalFacts GraphEvalWf.
 Require Import Solver Eval.
 Open Scope string_scope.
 
@@ -50,6 +50,11 @@ Example ex_prog_edges :
   in_edges (prog_graph Z ex_vname string_of_Z ex_f1 ex_f2 ex_prog) "Z[t+1]" = ["max"; "Y[t]"; "X[t]"; "if"; "Z[t]"; "else"; "exp"; "X[t+2]"]
   /\ in_edges (prog_graph Z ex_vname string_of_Z ex_f1 ex_f2 ex_prog) "Y[t]" = ["X[t-1]"; "Y[t-1]"].
 Proof. vm_compute. split; reflexivity. Qed.
+
+Example ex_name_conditions :
+  forallb name_ok ["Y"; "X"; "is_open"; "not_X"; "Pin"; "alpha_1"] = true /\ name_ok "if" = false /\ name_ok "is" = false /\
+  forallb fname_ok ["exp"; "np.sqrt"; "max"] = true /\ forallb numeral_ok ["2"; "0.5"; "-10"; "1."] = true /\ numeral_ok "2e5" = false.
+Proof. vm_compute. repeat split; reflexivity. Qed.
 
 (* ---- what does NOT hold of the code as it is ---- *)
 (* finding #20: a blank before the index bracket.  The script says Y depends on X one period back; the parser accepts it,
